@@ -411,6 +411,10 @@ def _make_from_spec(spec):
     kw = dict(full=spec.get("full", False), data_width=spec.get("data_width", 8), address_width=spec.get("address_width", 2),
               domain=spec.get("domain", True))
     kind = spec["kind"]
+    if kind in ("shared", "xbar"):
+        kw["id_width"] = spec.get("id_width", 1)
+        if spec.get("m_address_widths"):
+            kw["m_address_widths"] = spec["m_address_widths"]
     if kind == "shared":
         return make_shared(spec["n"], decs, **kw)
     if kind == "xbar":
@@ -474,6 +478,55 @@ def _replay(inst, trace, hyp=True):
 
 # ---------------------------------------------------------------------------------------------------------
 
+def _robust_worker(idx):
+    import explore, traceback
+    try:
+        return ("ok", explore._worker(idx))
+    except Exception as e:        # building or driving this one instance failed: report it, keep the other jobs' results
+        return ("exc", idx, repr(e), traceback.format_exc()[-1500:])
+
+
+def _run_jobs_robust(ctx, jobs, procs):
+    """`explore.run_jobs`, except that an exception inside one job (a changed implementation that no longer builds in
+    that shape, a port that disappeared, a compiled-evaluator mismatch, …) becomes a reported disagreement of that
+    job instead of aborting the whole correspondence run."""
+    import explore, multiprocessing as mp
+    explore._JOBS = jobs
+    explore._CTXINFO = (ctx.prop, ctx.seed, ctx.tier)
+    if procs <= 1 or len(jobs) <= 1:
+        raw = [_robust_worker(i) for i in range(len(jobs))]
+    else:
+        with mp.get_context("fork").Pool(procs) as pool:
+            raw = pool.map(_robust_worker, range(len(jobs)), chunksize=1)
+    dis, bad_jobs = [], []
+    for r in raw:
+        if r[0] == "exc":
+            _, idx, err, tb = r
+            bad_jobs.append(idx)
+            dis.append({"kind": "correspondence-exception", "instance": "job %d (%s)" % (idx, jobs[idx].mode),
+                        "what": "building / driving this instance raised %s" % err, "traceback": tb})
+            continue
+        idx, covd, ds = r[1]
+        ctx.cov.instances += covd["instances"]
+        for smp in covd["samples"]:
+            if len(ctx.cov.samples) < 8:
+                ctx.cov.samples.append(smp)
+        ctx.cov.evaluations += covd["evaluations"]
+        ctx.cov.nontrivial += covd["nontrivial"]
+        ctx.cov.states += covd["states"]
+        ctx.cov.transitions += covd["transitions"]
+        for k, v in covd["hist"].items():
+            ctx.cov.count(k, v)
+        ctx.cov.notes += covd["notes"]
+        if ds:
+            bad_jobs.append(idx)
+            for (trace, cycle, io, mo, kind, iname, lopen) in ds:
+                d = Disagreement(None, trace, cycle, io, mo, kind)
+                d.inst_name, d.lean_open, d.job = iname, lopen, idx
+                dis.append(d)
+    return dis, bad_jobs
+
+
 def correspond(ctx):
     ctx.rule = ("model/implementation correspondence cases; non-trivial = some channel handshake happens at a master or "
                 "slave port in that (state, input) pair; counted per distinct pair")
@@ -486,13 +539,23 @@ def correspond(ctx):
                          "litex.gen.sim.core.Evaluator on every instance of every run and by two Evaluator-only mode-B instances"]
     ctx.jobs = jobs(ctx.tier, ctx.seed)
     dis = []
-    dis += _corpus(ctx)
-    dis += _counter_cases(ctx)
-    dis += _rr_cases(ctx)
-    dis += _saturation_case(ctx)
-    d2, bad = run_jobs(ctx, ctx.jobs, procs=min(len(ctx.jobs), int(os.environ.get("VERIF_PROCS", "0")) or 6))
+    for part in (_corpus, _counter_cases, _rr_cases, _saturation_case):
+        try:
+            dis += part(ctx)
+        except Exception as e:
+            import traceback
+            dis.append({"kind": "correspondence-exception", "instance": part.__name__,
+                        "what": "%s raised %r" % (part.__name__, e), "traceback": traceback.format_exc()[-1500:]})
+            try:
+                ctx.lean.close_session()
+            except Exception:
+                pass
+    d2, bad = _run_jobs_robust(ctx, ctx.jobs, procs=min(len(ctx.jobs), int(os.environ.get("VERIF_PROCS", "0")) or 6))
     dis += d2
-    dis += _self_test(ctx)
+    try:
+        dis += _self_test(ctx)
+    except Exception as e:
+        dis.append({"kind": "correspondence-exception", "instance": "selftest", "what": "self test raised %r" % (e,)})
     return dis
 
 
@@ -566,6 +629,10 @@ def _search_instances(seed):
             out.append(lambda mk=mk, full=full: mk(3, MAPS[3][0][1], full=full, env_kw={"max_out": 2}))
             decs = _region_map(rng, 3)
             out.append(lambda mk=mk, full=full, decs=decs: mk(3, decs, full=full, data_width=32, address_width=32))
+        d64 = _region_map(rng, 3)
+        out.append(lambda full=full, d64=d64: make_xbar(2, d64, full=full, data_width=64, address_width=32))
+        out.append(lambda full=full, d64=d64: make_shared(3, d64, full=full, data_width=128, address_width=32))
+        out.append(lambda full=full: make_shared(2, [DecRegion(0, 1 << 32)], full=full, data_width=32, address_width=32))
         out.append(lambda full=full: make_arb(3, full=full))
         out.append(lambda full=full: make_dec(MAPS[3][0][1], full=full))
     out.append(lambda: make_p2p())
@@ -634,7 +701,8 @@ def search(ctx, disagreements, proof_info):
 
 def _spec_of(inst):
     return {"kind": inst.kind, "n": inst.n, "decs": [d.word() for d in inst.decs], "full": inst.full,
-            "data_width": inst.data_width, "address_width": inst.bus.address_width, "domain": inst.domain}
+            "data_width": inst.data_width, "address_width": inst.address_width, "domain": inst.domain,
+            "m_address_widths": inst.m_address_widths, "id_width": inst.id_width}
 
 
 # ---------------------------------------------------------------------------------------------------------
